@@ -49,7 +49,17 @@ def _fp(x, depth=0, seen=None):
         return "[" + ",".join(_fp(v, depth + 1, seen) for v in x) + "]"
     if isinstance(x, (set, frozenset)):
         return "{" + ",".join(sorted(_fp(v, depth + 1, seen) for v in x)) + "}"
-    if isinstance(x, (types.FunctionType, types.BuiltinFunctionType, types.MethodType, type, types.ModuleType)):
+    if isinstance(x, types.FunctionType):
+        # mutable default arguments and closure cells are state too
+        cells = [c.cell_contents for c in (x.__closure__ or ()) if not isinstance(getattr(c, "cell_contents", None), types.FunctionType)] if x.__closure__ else []
+        return "<fn %s %s %s %s>" % (x.__qualname__, _fp(x.__defaults__, depth + 1, seen), _fp(x.__kwdefaults__, depth + 1, seen),
+                                     _fp(cells, depth + 1, seen))
+    if isinstance(x, type):
+        if not getattr(x, "__module__", "").startswith("labella"):
+            return "<class %s>" % x.__qualname__
+        attrs = {k: v for k, v in vars(x).items() if not k.startswith("__")}
+        return "<class %s %s>" % (x.__qualname__, _fp(attrs, depth + 1, seen))
+    if isinstance(x, (types.BuiltinFunctionType, types.MethodType, types.ModuleType)):
         return "<%s>" % getattr(x, "__qualname__", getattr(x, "__name__", "callable"))
     d = getattr(x, "__dict__", None)
     if d is not None:
